@@ -3,10 +3,12 @@ package fuzzfam
 import (
 	"archive/zip"
 	"bytes"
+	"encoding/json"
 	"io"
 	"os"
 	"path/filepath"
 	"regexp"
+	"sort"
 	"strings"
 )
 
@@ -27,7 +29,7 @@ type Mut struct {
 // extractors with zip fixtures).
 var mutOps = []string{
 	"trunc", "delline", "dupline", "swapline", "deltok", "duptok", "swaptok", "scalar", "splice",
-	"flip", "setbyte", "insert", "crlf", "crcrlf", "eol", "bom", "dropnl", "subdel", "elfsec", "nest", "repeat", "delrange", "strprefix", "strsuffix", "strempty",
+	"flip", "setbyte", "insert", "crlf", "crcrlf", "eol", "bom", "dropnl", "subdel", "elfsec", "jsonnode", "nest", "repeat", "delrange", "strprefix", "strsuffix", "strempty",
 }
 
 // lineEnds replace the terminator of one line (op "eol").
@@ -322,6 +324,8 @@ func applyMut(b []byte, m Mut) []byte {
 		return cut(b, rs[mod(m.B, len(rs))])
 	case "elfsec":
 		return elfSectionMutate(b, m)
+	case "jsonnode":
+		return jsonNodeMutate(b, m)
 	case "bom":
 		return append([]byte("\xef\xbb\xbf"), b...)
 	case "dropnl":
@@ -551,4 +555,102 @@ func elfSections(b []byte) int {
 		return 0
 	}
 	return shnum
+}
+
+// jsonReplacements are what op "jsonnode" puts in the place of one node of a JSON document.
+var jsonReplacements = []string{"null", "[]", "{}", "[null]", `{"":null}`, `""`, "0", "true", `"x"`, "12345678901234567890", "-1", `[[]]`, `[{}]`}
+
+// jsonNodes counts the nodes (values at any depth, the root included) of a JSON document; 0 when
+// b is not one.
+func jsonNodes(b []byte) int {
+	var v any
+	if json.Unmarshal(b, &v) != nil {
+		return 0
+	}
+	n := 0
+	var walk func(x any)
+	walk = func(x any) {
+		n++
+		switch t := x.(type) {
+		case []any:
+			for _, e := range t {
+				walk(e)
+			}
+		case map[string]any:
+			for _, k := range sortedJSONKeys(t) {
+				walk(t[k])
+			}
+		}
+	}
+	walk(v)
+	return n
+}
+
+func sortedJSONKeys(m map[string]any) []string {
+	ks := make([]string, 0, len(m))
+	for k := range m {
+		ks = append(ks, k)
+	}
+	sort.Strings(ks)
+	return ks
+}
+
+// jsonNodeMutate replaces node A (pre-order, object keys in sorted order) of a JSON document by
+// jsonReplacements[B] and re-renders the document.
+func jsonNodeMutate(b []byte, m Mut) []byte {
+	var v any
+	dec := json.NewDecoder(bytes.NewReader(b))
+	dec.UseNumber()
+	if dec.Decode(&v) != nil {
+		return b
+	}
+	total := jsonNodes(b)
+	if total == 0 {
+		return b
+	}
+	target := mod(m.A, total)
+	var repl any = json.RawMessage(jsonReplacements[mod(m.B, len(jsonReplacements))])
+	n := 0
+	var walk func(x any) any
+	walk = func(x any) any {
+		if n == target {
+			n++
+			// skip the subtree in the count
+			var skip func(y any)
+			skip = func(y any) {
+				switch t := y.(type) {
+				case []any:
+					for _, e := range t {
+						n++
+						skip(e)
+					}
+				case map[string]any:
+					for _, k := range sortedJSONKeys(t) {
+						n++
+						skip(t[k])
+					}
+				}
+			}
+			skip(x)
+			return repl
+		}
+		n++
+		switch t := x.(type) {
+		case []any:
+			for i, e := range t {
+				t[i] = walk(e)
+			}
+		case map[string]any:
+			for _, k := range sortedJSONKeys(t) {
+				t[k] = walk(t[k])
+			}
+		}
+		return x
+	}
+	v = walk(v)
+	out, err := json.MarshalIndent(v, "", "  ")
+	if err != nil {
+		return b
+	}
+	return append(out, '\n')
 }
